@@ -1476,6 +1476,144 @@ func valueStream(c *cli.Ctx, r *emit.Rng) error {
 	return w.Flush()
 }
 
+// ---------- characters moving across the boundaries of the fingerprint's fields ----------
+
+type fpMetric struct {
+	fam    string
+	labels [][2]string
+	ts     *int64
+}
+
+func i64(v int64) *int64 { return &v }
+
+// boundaryPairs: two DIFFERENT series whose fingerprint inputs coincide as soon as one separator is missing:
+// name|value, value|next name, family name|first label name, last value|timestamp.
+func boundaryPairs(r *emit.Rng) [][2]fpMetric {
+	l := func(kv ...string) [][2]string {
+		var o [][2]string
+		for i := 0; i+1 < len(kv); i += 2 {
+			o = append(o, [2]string{kv[i], kv[i+1]})
+		}
+		return o
+	}
+	out := [][2]fpMetric{
+		{{"m", l("ab", "c"), nil}, {"m", l("a", "bc"), nil}},                                     // name | value
+		{{"m", l("a", "b", "cd", "e"), nil}, {"m", l("a", "bc", "d", "e"), nil}},                 // value | next name
+		{{"m", l("a", "b", "cd", "e"), nil}, {"m", l("ab", "", "cd", "e"), nil}},                 // name | empty value
+		{{"m", l("a", "", "b", "c"), nil}, {"m", l("a", "b", "c", ""), nil}},                     // everything shifted by one field
+		{{"m", l("a", "b"), nil}, {"m", l("a", "", "b", ""), nil}},                               // value vs name of an extra label
+		{{"m", l("x", "1"), i64(23)}, {"m", l("x", "12"), i64(3)}},                               // last value | timestamp
+		{{"m", l("x", "1"), i64(-5)}, {"m", l("x", "1-"), i64(5)}},                               // sign of the timestamp
+		{{"m", nil, i64(12)}, {"m", l("a1", "2"), nil}},                                          // timestamp vs label
+		{{"m", l("ab", "c"), nil}, {"ma", l("b", "c"), nil}},                                     // family name | first label name
+		{{"m", l("a", "b"), nil}, {"ma", nil, nil}},                                              // family name swallowing a label
+		{{"m_a", l("b", "c"), nil}, {"m", l("_ab", "c"), nil}},
+	}
+	// random splits of one string into name/value/name/value at two different sets of cut points
+	for k := 0; k < 12; k++ {
+		w := []byte("abcdefgh")[:5+r.Intn(4)]
+		cut := func() [3]int {
+			for {
+				a, b, c := 1+r.Intn(len(w)-1), r.Intn(len(w)+1), r.Intn(len(w)+1)
+				if a <= b && b < c && c <= len(w) && string(w[:a]) != string(w[b:c]) {
+					return [3]int{a, b, c}
+				}
+			}
+		}
+		c1, c2 := cut(), cut()
+		if c1 == c2 {
+			continue
+		}
+		mk := func(c [3]int) fpMetric {
+			return fpMetric{"m", l(string(w[:c[0]]), string(w[c[0]:c[1]]), string(w[c[1]:c[2]]), string(w[c[2]:])), nil}
+		}
+		out = append(out, [2]fpMetric{mk(c1), mk(c2)})
+	}
+	return out
+}
+
+func (f fpMetric) dto(uid int) *dto.Metric {
+	m := &dto.Metric{TimestampMs: f.ts}
+	ls := append([][2]string{}, f.labels...)
+	sort.Slice(ls, func(i, j int) bool { return ls[i][0] < ls[j][0] })
+	for _, kv := range ls {
+		m.Label = append(m.Label, lp(kv[0], kv[1]))
+	}
+	setPayload(m, 1, uid)
+	return m
+}
+
+// boundaryStream: the pairs above as custom metrics from an unchecked collector (both arrival orders) and as hand-made
+// families through Gatherers.Gather.  The series are different, so both must be present with a nil error.
+func boundaryStream(c *cli.Ctx, r *emit.Rng) error {
+	w := emit.NewWriter(c.Out, "C09", "fieldboundaries")
+	var fl failures
+	setScheme(false)
+	for pi, pr := range boundaryPairs(r) {
+		for variant := 0; variant < 3; variant++ {
+			a, b := pr[0], pr[1]
+			if variant == 1 {
+				a, b = b, a
+			}
+			idx := w.Len()
+			var out gatherOut
+			var term string
+			tag := "via:unchecked-collector"
+			if variant < 2 {
+				descs := map[string]*prometheus.Desc{}
+				for _, f := range []fpMetric{a, b} {
+					if descs[f.fam] == nil {
+						descs[f.fam] = prometheus.NewDesc(f.fam, "h", nil, nil)
+					}
+				}
+				arr, o, ids := gatherOrdered(false, func(rc *recorder) []prometheus.Metric {
+					var ms []prometheus.Metric
+					for n, f := range []fpMetric{a, b} {
+						ms = append(ms, &advMetric{r: rc, x: rc.newRec(false), d: descs[f.fam], content: f.dto(n + 1)})
+					}
+					return ms
+				})
+				out = o
+				term = emit.Tup("0", "0", "0", ids, arr, familiesTerm(out.mfs), kindsTerm(out.kinds))
+			} else {
+				tag = "via:gatherers"
+				var mfs []*dto.MetricFamily
+				for n, f := range []fpMetric{a, b} {
+					var mf *dto.MetricFamily
+					for _, x := range mfs {
+						if x.GetName() == f.fam {
+							mf = x
+						}
+					}
+					if mf == nil {
+						mf = &dto.MetricFamily{Name: proto.String(f.fam), Help: proto.String("h"), Type: dto.MetricType_GAUGE.Enum()}
+						mfs = append(mfs, mf)
+					}
+					mf.Metric = append(mf.Metric, f.dto(n+1))
+				}
+				answer := emit.Pair(familiesTerm(mfs), kindsTerm(nil))
+				out, _ = gatherWithWatchdog(prometheus.Gatherers{prometheus.GathererFunc(func() ([]*dto.MetricFamily, error) { return mfs, nil })})
+				term = emit.Tup("1", "0", emit.L([]string{answer}), familiesTerm(out.mfs), kindsTerm(out.kinds))
+			}
+			n := 0
+			for _, mf := range out.mfs {
+				n += len(mf.Metric)
+			}
+			if len(out.kinds) > 0 || n != 2 {
+				fl.add(idx, fmt.Sprintf("two different series %v / %v: Gather returned %d metrics and error kinds %v", a, b, n, out.kinds))
+			}
+			if rt := roundTrip(out.mfs); rt != "" {
+				fl.add(idx, rt)
+			}
+			w.Add(term, true, tag, fmt.Sprintf("pair:%d", min(pi, 11)))
+		}
+	}
+	if len(fl.list) > 0 {
+		w.Extra["direct_failures"] = fl.list
+	}
+	return w.Flush()
+}
+
 // ---------- collectors that use the registry from within Collect ----------
 
 type reentrantCollector struct {
@@ -1690,6 +1828,9 @@ func runC09(c *cli.Ctx) error {
 		return err
 	}
 	if err := valueStream(c, r.Fork()); err != nil {
+		return err
+	}
+	if err := boundaryStream(c, r.Fork()); err != nil {
 		return err
 	}
 	if err := reentrantStream(c, r.Fork()); err != nil {
